@@ -577,7 +577,23 @@ def s_exc_code(E, args, kw, st, node):
     yield st, SVal(f(args[0].t), INT)
 
 
-SPEC_FORMS = {"exc_code": s_exc_code, "implies": s_implies, "iff": s_iff, "ANY": s_any, "store": s_store, "ite": s_ite, "distinct": s_distinct,
+def s_utf8(E, args, kw, st, node):
+    from .fsmodel import utf8, ensure_codec_axioms
+    ensure_codec_axioms(E)
+    yield st, SVal(utf8(E)(E.coerce(args[0], STR, st).t), BYTES)
+
+
+def s_decode(E, args, kw, st, node):
+    from .fsmodel import decode, ensure_codec_axioms
+    ensure_codec_axioms(E)
+    yield st, SVal(decode(E)(E.coerce(args[0], BYTES, st).t), STR)
+
+
+def s_decodable(E, args, kw, st, node):
+    yield st, SVal(E.uf("decodable", [E.U.Bytes], z3.BoolSort())(E.coerce(args[0], BYTES, st).t), BOOL)
+
+
+SPEC_FORMS = {"utf8": s_utf8, "decode_utf8": s_decode, "decodable": s_decodable, "exc_code": s_exc_code, "implies": s_implies, "iff": s_iff, "ANY": s_any, "store": s_store, "ite": s_ite, "distinct": s_distinct,
               "none": s_none, "dom": s_dom, "lookup": s_lookup, "subset": s_subset, "typed_empty": s_typed_empty}
 
 
@@ -941,8 +957,9 @@ def str_method(E, recv, name, args, kw, st, node):
         f = E.uf("str_replace_all", [S, S, S], S)
         yield st, SVal(f(recv.t, a.t, b.t), STR)
     elif name == "encode":
-        f = E.uf("utf8", [S], E.U.Bytes)
-        yield st, SVal(f(recv.t), BYTES)
+        from .fsmodel import utf8, ensure_codec_axioms
+        ensure_codec_axioms(E)
+        yield st, SVal(utf8(E)(recv.t), BYTES)
     elif name == "format":
         raise OutsideSubset("str.format")
     else:
